@@ -547,6 +547,21 @@ func (w *World) checkUpdateData(n *Node, b *Block, ud u.UpdateData) {
 		if missingOnlyLoneRoots(ud.NewAddPos, e.AddPos, b.Post) {
 			cls = "addpos-lone-root-leaf-missing"
 		}
+		if len(ud.NewAddPos) > 64 || len(e.AddPos) > 64 {
+			i := 0
+			for i < len(ud.NewAddPos) && i < len(e.AddPos) && ud.NewAddPos[i] == e.AddPos[i] {
+				i++
+			}
+			g, x := uint64(0), uint64(0)
+			if i < len(ud.NewAddPos) {
+				g = ud.NewAddPos[i]
+			}
+			if i < len(e.AddPos) {
+				x = e.AddPos[i]
+			}
+			bad(cls, "NewAddPos has %d entries, expected %d; first difference at index %d: got %d, expected %d", len(ud.NewAddPos), len(e.AddPos), i, g, x)
+			return
+		}
 		bad(cls, "NewAddPos %v, expected %v", ud.NewAddPos, e.AddPos)
 		return
 	}
